@@ -8,6 +8,7 @@ package main
 // the handlers' sequences with the table machine of Model/Endpoint.lean.
 
 import (
+	"sync/atomic"
 	"bytes"
 	"fmt"
 	"io/ioutil"
@@ -555,10 +556,104 @@ func init() {
 		return r.err
 	}
 	executors["c10.order"] = execC10Order
+	executors["c10.busy"] = execC10Busy
 	runners["C10"] = runC10
 }
 
 var lastC10 c10Result
+
+// c10.busy <rounds>: a consumer registered with AddHandler is held inside the first message of a round while three
+// more arrive (four wait at most: the queue has room for ten); the fifth arrives while the consumer becomes free —
+// a second handler that selects nothing frees it from its filter, which dispatch calls right after the first handler
+// has been given the message.  The consumer is called with the five messages in the order of their arrival.
+func execC10Busy(a []string) string {
+	rounds, _ := strconv.Atoi(a[0])
+	const per = 5
+	x, y := qnet.Pipe()
+	defer x.Close()
+	defer y.Close()
+	var mu sync.Mutex
+	var gate chan struct{}
+	var received []uint32
+	entered := make(chan struct{}, 1)
+	var seen int32
+	y.AddHandler(func(h *qnet.Header) (bool, bool) { atomic.AddInt32(&seen, 1); return true, true },
+		func(m *qnet.Message) error {
+			mu.Lock()
+			received = append(received, m.Header.ID)
+			g := gate
+			mu.Unlock()
+			if m.Header.ID%per == 1 {
+				entered <- struct{}{}
+				<-g
+			}
+			return nil
+		}, nil)
+	y.MakeHandler(func(h *qnet.Header) (bool, bool) {
+		if h.ID%per == 0 {
+			mu.Lock()
+			g := gate
+			mu.Unlock()
+			close(g)
+		}
+		return false, true
+	}, make(chan *qnet.Message, 1), nil)
+	send := func(id uint32) error {
+		return x.Send(qnet.NewMessage(qnet.NewHeader(qnet.Post, 1, 1, 1, id), []byte{1, 2, 3, 4}))
+	}
+	wait := func(cond func() bool) bool {
+		deadline := time.Now().Add(4 * time.Second)
+		for !cond() {
+			if time.Now().After(deadline) {
+				return false
+			}
+			time.Sleep(100 * time.Microsecond)
+		}
+		return true
+	}
+	for r := 0; r < rounds; r++ {
+		base := uint32(r * per)
+		mu.Lock()
+		gate = make(chan struct{})
+		received = received[:0]
+		mu.Unlock()
+		atomic.StoreInt32(&seen, 0)
+		if send(base+1) != nil {
+			return "fail:send"
+		}
+		select {
+		case <-entered:
+		case <-time.After(4 * time.Second):
+			return "fail:consumer-not-called"
+		}
+		for i := uint32(2); i < per; i++ {
+			if send(base+i) != nil {
+				return "fail:send"
+			}
+		}
+		if !wait(func() bool { return atomic.LoadInt32(&seen) == per-1 }) {
+			return "fail:not-dispatched"
+		}
+		time.Sleep(200 * time.Microsecond)
+		if send(base+per) != nil {
+			return "fail:send"
+		}
+		if !wait(func() bool { mu.Lock(); defer mu.Unlock(); return len(received) == per }) {
+			mu.Lock()
+			defer mu.Unlock()
+			return fmt.Sprintf("fail:lost the consumer got %v of %d..%d", received, base+1, base+per)
+		}
+		mu.Lock()
+		got := append([]uint32{}, received...)
+		mu.Unlock()
+		for i, id := range got {
+			if id != base+uint32(i)+1 {
+				return fmt.Sprintf("fail:order the consumer was called with %v (arrival order %d..%d)", got, base+1, base+per)
+			}
+		}
+	}
+	return "ok"
+}
 
 func runC10(r *Rand, tier string, o *Out) {
 	// a table that has grown beyond its ten slots, the early handlers gone
@@ -583,6 +678,17 @@ func runC10(r *Rand, tier string, o *Out) {
 		if c10FullDetail != "" {
 			o.Fail("a handler with room does not get each selected message intact and once", line+": "+c10FullDetail)
 		}
+	}
+	// a consumer that is busy for a while and becomes free as another message arrives
+	{
+		line := "c10.busy 150"
+		if tier == "thorough" {
+			line = "c10.busy 2000"
+		}
+		if out := o.Do("P", line, true); out != "ok" {
+			o.Fail("a busy consumer: "+strings.SplitN(strings.TrimPrefix(out, "fail:"), " ", 2)[0], line+" => "+out)
+		}
+		o.Count("busy-consumer")
 	}
 	transports := []string{"mem", "unix", "tcp", "tcps", "pipe"}
 	rounds := 40
